@@ -35,22 +35,32 @@ Definition range (a n : nat) : list Z := map Z.of_nat (seq a n).
    of b (k = 2) and a's full level is downsampled with stride 4; then one more update and a query *)
 Definition W1 : prog := PQuery (PUpd (PMerge (stream 8 (range 0 40)) (stream 2 (range 100 9))) 50).
 
-Definition witness1 (cs : list Z) : option (list Z * cq) := replay_ar (exec W1) cs.
-
 Lemma W1_wf : wf W1.
 Proof. repeat split. Qed.
 
+(* all outcomes 0 *)
 Lemma witness1_values :
-  exists ar s, witness1 (repeat 0 11) = Some (ar, s) /\ ar = [2; 2; 2; 2; 2; 2; 2; 2; 2; 2; 4] /\
+  exists ar s, replay_ar (exec W1) (repeat 0 11) = Some (ar, s) /\ path (exec W1) ar s /\
+    ar = [2; 2; 2; 2; 2; 2; 2; 2; 2; 2; 4] /\
     ck s = 2 /\ cn s = 50 /\ cbp s = 12 /\ cbb s = [39; 50] /\ clv s = [[]; []; [32; 100]; [0; 16]] /\
     iterate s = [(39, 1); (50, 1); (32, 8); (100, 8); (0, 16); (16, 16)] /\
     sum_weights (iterate s) = 50 /\ compute_retained_items 2 50 = 6.
-Proof. vm_compute. eexists. eexists. repeat split. Qed.
+Proof.
+  destruct (replay_ar (exec W1) (repeat 0 11)) as [[ar s]|] eqn:E.
+  - exists ar, s. split; [reflexivity|]. split; [exact (replay_ar_path _ _ _ _ E)|].
+    vm_compute in E. injection E as <- <-. vm_compute. repeat split.
+  - vm_compute in E. discriminate.
+Qed.
 
+(* another outcome: same draws, same n and bit pattern *)
 Lemma witness1_other_outcome :
-  exists ar s, witness1 [1; 0; 1; 1; 0; 1; 0; 1; 1; 0; 3] = Some (ar, s) /\ ar = [2; 2; 2; 2; 2; 2; 2; 2; 2; 2; 4] /\
-    cn s = 50 /\ cbp s = 12.
-Proof. vm_compute. eexists. eexists. repeat split. Qed.
+  exists ar s, replay_ar (exec W1) [1; 0; 1; 1; 0; 1; 0; 1; 1; 0; 3] = Some (ar, s) /\
+    ar = [2; 2; 2; 2; 2; 2; 2; 2; 2; 2; 4] /\ cn s = 50 /\ cbp s = 12.
+Proof.
+  destruct (replay_ar (exec W1) [1; 0; 1; 1; 0; 1; 0; 1; 1; 0; 3]) as [[ar s]|] eqn:E.
+  - exists ar, s. split; [reflexivity|]. vm_compute in E. injection E as <- <-. vm_compute. repeat split.
+  - vm_compute in E. discriminate.
+Qed.
 
 (* a reachable sketch with an empty base buffer and a gap in the levels: n = 8k, bit_pattern = 100b *)
 Definition W2 : prog := stream 2 (range 0 16).
@@ -59,6 +69,11 @@ Lemma W2_wf : wf W2.
 Proof. repeat split. Qed.
 
 Lemma witness2_values :
-  exists ar s, replay_ar (exec W2) (repeat 1 7) = Some (ar, s) /\ length ar = 7%nat /\
+  exists ar s, replay_ar (exec W2) (repeat 1 7) = Some (ar, s) /\ path (exec W2) ar s /\ length ar = 7%nat /\
     cbb s = [] /\ cbp s = 4 /\ clv s = [[]; []; [7; 15]] /\ iterate s = [(7, 8); (15, 8)].
-Proof. vm_compute. eexists. eexists. repeat split. Qed.
+Proof.
+  destruct (replay_ar (exec W2) (repeat 1 7)) as [[ar s]|] eqn:E.
+  - exists ar, s. split; [reflexivity|]. split; [exact (replay_ar_path _ _ _ _ E)|].
+    vm_compute in E. injection E as <- <-. vm_compute. repeat split.
+  - vm_compute in E. discriminate.
+Qed.
